@@ -905,8 +905,8 @@ the passed Key, the object in Signed cannot be canonicalized, or the Signature
 is invalid.
 */
 func (mb *Metablock) VerifySignature(key Key) error {
-	sig, err := mb.GetSignatureForKeyID(key.KeyID)
-	if err != nil {
+	// Report a missing signature before anything else
+	if _, err := mb.GetSignatureForKeyID(key.KeyID); err != nil {
 		return err
 	}
 
@@ -920,17 +920,25 @@ func (mb *Metablock) VerifySignature(key Key) error {
 		return err
 	}
 
-	sigBytes, err := hex.DecodeString(sig.Sig)
-	if err != nil {
-		return err
+	// Any signature entry of the key may be the valid one: a Metablock that
+	// was signed, changed and signed again with the same key carries the
+	// outdated signature in front of the current one
+	for _, sig := range mb.Signatures {
+		if sig.KeyID != key.KeyID {
+			continue
+		}
+		var sigBytes []byte
+		sigBytes, err = hex.DecodeString(sig.Sig)
+		if err != nil {
+			continue
+		}
+		err = verifier.Verify(context.Background(), payload, sigBytes)
+		if err == nil {
+			return nil
+		}
 	}
 
-	err = verifier.Verify(context.Background(), payload, sigBytes)
-	if err != nil {
-		return err
-	}
-
-	return nil
+	return err
 }
 
 // GetSignatureForKeyID returns the signature that was created by the provided keyID, if it exists.
